@@ -51,6 +51,34 @@ def r03_1(ctx: Ctx) -> None:
                       "a column header whose text is generated from the column names (text=None, as_colheader=True - the default) is rendered on every header page "
                       "but the reservation only counts headers with explicit text: such pages carry one row more than nrow")
     # headers are rendered only on pages with needs_header, reservation is unconditional: fine (reservation wider)
+    # every reservation term may only be conditioned on the presence of what it reserves for: a narrower
+    # guard (e.g. only when pageby_header, only when as_table) leaves rendered rows unreserved
+    allowed = {
+        "subline": {"document.rtf_body.subline_by"},
+        "header": {"document.rtf_column_header", "document.rtf_column_header[0]", "section_headers", "header", "header.text", "list"},
+        "footnote": {"document.rtf_footnote", "document.rtf_footnote.text"},
+        "source": {"document.rtf_source", "document.rtf_source.text"},
+    }
+    for aug in [a for a in ast.walk(res.node) if isinstance(a, ast.AugAssign) and unparse(a.target) == "additional_rows"]:
+        tests = [t for t in _guards(aug, res.node)]
+        txt = " and ".join(unparse(t) for t in tests)
+        kind = "subline" if "subline_by" in txt else "footnote" if "rtf_footnote" in txt else "source" if "rtf_source" in txt else "header"
+        used = set()
+        for t in tests:
+            for n in ast.walk(t):
+                if isinstance(n, ast.Attribute) and not isinstance(getattr(n, "_parent", None), ast.Attribute):
+                    used.add(unparse(n))
+                elif isinstance(n, ast.Name) and not isinstance(getattr(n, "_parent", None), ast.Attribute) and n.id not in ("isinstance", "None", "len"):
+                    used.add(n.id)
+                elif isinstance(n, ast.Subscript) and isinstance(getattr(n, "_parent", None), ast.Call):
+                    used.add(unparse(n))
+        extra = sorted(u for u in used if u not in allowed[kind] and not any(u.startswith(a + "[") for a in allowed[kind]))
+        ctx.instance("R03.1", res.where(aug), f"reservation term ({kind}) guarded by `{txt[:90]}`; atoms outside the component's presence: {extra}")
+        if extra:
+            ctx.violation("R03.1", res.short, f"{kind} reservation also depends on {extra}", res.where(aug),
+                          f"the {kind} reservation is only made when {extra} hold(s); the {kind} row is rendered regardless, so such pages exceed nrow")
+        if unparse(aug.value) != "1":
+            ctx.violation("R03.1", res.short, f"{kind} reservation += {unparse(aug.value)}", res.where(aug), f"the {kind} reservation is `{unparse(aug.value)}` rows instead of one per rendered row")
     # (3) in-page spanning rows and data rows: per-row budget terms (R03.5)
     c = pm.func("PageBreakCalculator.calculate_row_metadata")
     tc = unparse(c.node)
@@ -71,6 +99,18 @@ def r03_1(ctx: Ctx) -> None:
                       "the group heading is re-emitted at the top of every continuation page (render step 7) but a page that starts inside a group is budgeted with 0 heading rows "
                       "(current_rows restarts at 0 and only group-start rows carry pageby_header_rows): such pages hold nrow + heading rows")
     ctx.floor("R03.1", 6)
+
+
+def _guards(node, stop):
+    out = []
+    child = node
+    p = getattr(node, "_parent", None)
+    while p is not None and p is not stop:
+        if isinstance(p, ast.If):
+            out.append(p.test)
+        child = p
+        p = getattr(p, "_parent", None)
+    return list(reversed(out))
 
 
 def r03_3_6(ctx: Ctx) -> None:
